@@ -560,6 +560,59 @@ func runC07(c *Ctx, r *Report) {
 		}
 	}
 
+	// … and a first-party helper on the way into json.Marshal whose returns render its argument in different ways
+	// (a conversion on one path, an encoder on another): the two renderings share one output domain
+	{
+		seenHelper := map[*ssa.Function]bool{}
+		for x := range slice {
+			call, ok := x.(*ssa.Call)
+			if !ok {
+				continue
+			}
+			g := call.Call.StaticCallee()
+			if g == nil || g.Blocks == nil || seenHelper[g] || !p.firstParty(calleePkg(g)) || !isStringish(call.Type()) || g == stb || g == sth {
+				continue
+			}
+			seenHelper[g] = true
+			kinds := map[string]bool{}
+			allInstrs(g, false, func(ins ssa.Instruction) {
+				ret, ok := ins.(*ssa.Return)
+				if !ok || len(ret.Results) == 0 {
+					return
+				}
+				var vals []ssa.Value
+				if ph, ok := ret.Results[0].(*ssa.Phi); ok {
+					vals = ph.Edges
+				} else {
+					vals = []ssa.Value{ret.Results[0]}
+				}
+				for _, v := range vals {
+					k := "plain"
+					switch y := v.(type) {
+					case *ssa.Convert:
+						k = "a conversion"
+					case *ssa.Call:
+						if cal := y.Call.StaticCallee(); cal != nil {
+							k = cal.Name()
+						}
+					case *ssa.Const:
+						k = "a constant"
+					}
+					kinds[k] = true
+				}
+			})
+			delete(kinds, "a constant")
+			if len(kinds) > 1 {
+				var ks []string
+				for k := range kinds {
+					ks = append(ks, k)
+				}
+				sort.Strings(ks)
+				r.Violate("R-C07.3", r.Key("R-C07.3", tb, "ambiguous-encoding", g.Name()), call.Pos(), fmt.Sprintf("a signed field reaches json.Marshal through %s, which renders it in alternative ways %v chosen at run time: an input rendered one way collides with a different input rendered the other way, and both carry the same valid signature", g.Name(), ks))
+			}
+		}
+	}
+
 	// the same on the way into the hashable view: a first-party helper between a getter and its Hashable field that
 	// hands back its argument on one path and something it built on another is two encodings chosen at run time
 	{
